@@ -13,6 +13,7 @@ import (
 )
 
 type Clause struct {
+	Pkg   string // package directive in force (global axioms apply to functions of that package only)
 	Kind  string
 	Label string
 	Expr  ast.Expr
@@ -53,6 +54,7 @@ type FuncContract struct {
 	Props      []string
 	Requires   []*Clause
 	Ensures    []*Clause
+	AllowDead  []string // cover labels that may be unreachable under this contract (code made dead by a precondition)
 	ExitCode   *Clause // condition on the argument `code` of every os.Exit reached (the process status is code mod 256)
 	Panics     *Clause // may/must panic exactly when (old state)
 	MayPanic   bool
@@ -130,7 +132,7 @@ func (cs *Contracts) load(path string) error {
 			word, rest = l.text[:i], strings.TrimSpace(l.text[i+1:])
 		}
 		mkClause := func(kind string) (*Clause, error) {
-			c := &Clause{Kind: kind, File: path, Line: l.line}
+			c := &Clause{Kind: kind, File: path, Line: l.line, Pkg: pkg}
 			if m := labelRe.FindStringSubmatch(rest); m != nil {
 				c.Label = m[1]
 				rest = rest[len(m[0]):]
@@ -219,6 +221,8 @@ func (cs *Contracts) load(path string) error {
 			cur.Pure = true
 		case "may_panic":
 			cur.MayPanic = true
+		case "allow_unreachable":
+			cur.AllowDead = append(cur.AllowDead, strings.Fields(rest)...)
 		case "unroll":
 			n, err := strconv.Atoi(rest)
 			if err != nil || loop == nil {
